@@ -2,20 +2,38 @@
 
 package main
 
-import "github.com/itchyny/gojq"
+import (
+	"bytes"
+
+	"github.com/itchyny/gojq"
+)
 
 // With the build tags "verif gojq_debug" the interpreter's own per-instruction trace (debug.go:
 // env.debugState, first statement of the loop body) is sent to a writer that counts its lines:
 // an instruction-fetch counter that does not depend on ctx.Done().
 const fetchEnabled = true
 
-type fetchWriter struct{ n int }
+type fetchWriter struct {
+	n   int
+	pcs []string // "(pc bt)" of every fetch since the last reset, when recording
+	rec bool
+}
 
 // debugState lines are "\t<pc>\t..."; debugForks lines are "\t-\t..."; debugCodes is printed inside
 // RunWithContext, before fetchReset.
 func (w *fetchWriter) Write(b []byte) (int, error) {
 	if len(b) > 1 && b[0] == '\t' && b[1] >= '0' && b[1] <= '9' {
 		w.n++
+		if w.rec {
+			f := bytes.SplitN(b[1:], []byte{'\t'}, 3)
+			if len(f) >= 2 {
+				bt := "0"
+				if bytes.Contains(f[1], []byte(" <backtrack>")) {
+					bt = "1"
+				}
+				w.pcs = append(w.pcs, "("+string(f[0])+" "+bt+")")
+			}
+		}
 	}
 	return len(b), nil
 }
@@ -25,3 +43,6 @@ var fw = &fetchWriter{}
 func init()           { gojq.VerifCountInstructions(fw) }
 func fetchReset()     { fw.n = 0 }
 func fetchCount() int { return fw.n }
+
+func fetchRecord(on bool) { fw.rec, fw.pcs = on, nil }
+func fetchPcs() []string  { return fw.pcs }
